@@ -534,6 +534,10 @@ func (ndb *nodeDB) deleteVersion(version int64, cache *rootkeyCache) error {
 // deleteLegacyNodes deletes all legacy nodes with the given version from disk.
 // NOTE: This is only used for DeleteVersionsFrom.
 func (ndb *nodeDB) deleteLegacyNodes(version int64, nk []byte) error {
+	if len(nk) == 0 {
+		// the legacy root of an empty tree has no nodes
+		return nil
+	}
 	node, err := ndb.GetNode(nk)
 	if err != nil {
 		return err
